@@ -43,6 +43,8 @@ func c20(c *Ctx) {
 	c20fullLists(c)
 	c20tokens(c)
 	c20index(c)
+	c20concat(c)
+	c20scanBounds(c)
 }
 
 // nodeish: *TokenNode, a type with a Format method from package ast, an interface of package ast, or a slice of those.
@@ -58,6 +60,9 @@ func c20nodeish(t types.Type, astPkg *types.Package) bool {
 		}
 		if types.IsInterface(tt) {
 			return true
+		}
+		if sl, ok := tt.Underlying().(*types.Slice); ok {
+			return c20nodeish(sl.Elem(), astPkg) // a named list type (ElemExprList)
 		}
 		if _, ok := tt.Underlying().(*types.Struct); !ok {
 			return false
@@ -132,177 +137,165 @@ func c20coverage(c *Ctx) {
 			if a := p.Abs(p.Results[0]); a.K == px.ConstV {
 				return true, "" // constant (empty) text
 			}
-			// syms handed to calls on this path
-			handed := map[*px.Sym]bool{}
-			var mark func(s *px.Sym, d int)
-			mark = func(s *px.Sym, d int) {
-				if s == nil || d > 6 {
-					return
-				}
-				s = s.Strip(false)
-				if handed[s] {
-					return
-				}
-				handed[s] = true
-				for _, el := range p.SliceElems(s) {
-					mark(el, d+1)
-				}
-				if s.Kind == px.KCall && s.Call != nil {
-					for _, a := range s.Call.Args {
-						mark(a, d+1)
-					}
-				}
-			}
+			// what was executed on this path (calls and loads, keyed by instruction)
+			executed := map[ssa.Instruction]bool{}
 			for i := range p.Events {
-				e := &p.Events[i]
-				if e.Kind != px.EvCall || e.Call.Builtin == "len" {
-					continue
-				}
-				if e.Call.Builtin != "" && e.Call.Builtin != "append" {
-					continue
-				}
-				for _, a := range e.Call.Args {
-					mark(a, 0)
-				}
-				if e.Call.Recv != nil {
-					mark(e.Call.Recv, 0)
+				if in := p.Events[i].Instr; in != nil {
+					executed[in] = true
 				}
 			}
-			// values ranged over (slices of children)
-			ranged := map[*px.Sym]bool{}
-			for i := range p.Events {
-				e := &p.Events[i]
-				if e.Kind == px.EvLoad || e.Kind == px.EvBranch {
-					continue
-				}
-			}
-			for s := range handed {
-				_ = s
-			}
-			for _, fld := range children {
-				key := name + "." + fld
-				if _, ok := exempt[key]; ok {
-					continue
-				}
-				// nil-ness of the field on this path
-				loadsOf := func(f string) []*px.Sym {
-					var out []*px.Sym
-					for i := range p.Events {
-						e := &p.Events[i]
-						if e.Kind == px.EvLoad && px.FieldAddrIs(e.Addr, f, func(b *px.Sym) bool { return isParam(b, recv) }) {
-							out = append(out, e.Val)
-						}
+			written := func(v ssa.Value, viaOK bool) bool { return c20flowsToSink(v, executed, pk.Types, viaOK) }
+			var checkStruct func(sname string, flds []string, isBase func(b *px.Sym) bool, where string, depth int) (bool, string)
+			checkStruct = func(sname string, flds []string, isBase func(b *px.Sym) bool, where string, depth int) (bool, string) {
+				for _, fld := range flds {
+					key := sname + "." + fld
+					if _, ok := exempt[key]; ok {
+						continue
 					}
-					return out
-				}
-				absent := func(ls []*px.Sym) bool {
-					for _, l := range ls {
-						if p.Abs(l).K == px.Nil {
-							return true
+					// nil-ness of the field on this path
+					loadsOf := func(f string) []*px.Sym {
+						var out []*px.Sym
+						for i := range p.Events {
+							e := &p.Events[i]
+							if e.Kind == px.EvLoad && px.FieldAddrIs(e.Addr, f, isBase) {
+								out = append(out, e.Val)
+							}
 						}
+						return out
 					}
-					firstLenTest := true
-					for _, b := range p.All(px.KindIs(px.EvBranch)) {
-						cnd := b.Cond.Strip(true)
-						if cnd.Kind == px.KCall && cnd.Call != nil && len(cnd.Call.Args) == 1 {
-							for _, l := range ls {
-								if cnd.Call.Args[0].Strip(false) == l.Strip(false) && strings.Contains(strings.ToLower(cnd.Call.Name()), "nil") && b.Taken {
-									return true
+					// the SSA load instructions behind them (go/ssa does not merge repeated loads; the path
+					// engine does, so the def-use walk starts from every executed load of the field)
+					loadValsOf := func(f string) []ssa.Value {
+						var out []ssa.Value
+						for i := range p.Events {
+							e := &p.Events[i]
+							if e.Kind == px.EvLoad && px.FieldAddrIs(e.Addr, f, isBase) {
+								if v, ok := e.Instr.(ssa.Value); ok {
+									out = append(out, v)
 								}
 							}
 						}
-						isLenOfField := func(x *px.Sym) bool {
-							return isLenOf(x, func(y *px.Sym) bool {
+						return out
+					}
+					absent := func(ls []*px.Sym) bool {
+						for _, l := range ls {
+							if p.Abs(l).K == px.Nil {
+								return true
+							}
+						}
+						firstLenTest := true
+						for _, b := range p.All(px.KindIs(px.EvBranch)) {
+							cnd := b.Cond.Strip(true)
+							if cnd.Kind == px.KCall && cnd.Call != nil && len(cnd.Call.Args) == 1 {
 								for _, l := range ls {
-									if y.Strip(false) == l.Strip(false) {
+									if cnd.Call.Args[0].Strip(false) == l.Strip(false) && strings.Contains(strings.ToLower(cnd.Call.Name()), "nil") && b.Taken {
+										return true
+									}
+								}
+							}
+							isLenOfField := func(x *px.Sym) bool {
+								return isLenOf(x, func(y *px.Sym) bool {
+									for _, l := range ls {
+										if y.Strip(false) == l.Strip(false) {
+											return true
+										}
+									}
+									return false
+								})
+							}
+							if cnd.Kind == px.KBinOp && isLenOfField(cnd.X) {
+								if z, ok := constInt(p, cnd.Y); ok && z == 0 && ordHolds(cnd.Op, 0) == b.Taken && ordHolds(cnd.Op, 1) != b.Taken {
+									return true // len(list) == 0
+								}
+							}
+							// range loop header `idx < len(list)` false on its first evaluation: empty list
+							if cnd.Kind == px.KBinOp && cnd.Op.String() == "<" && isLenOfField(cnd.Y) {
+								if firstLenTest && !b.Taken {
+									return true
+								}
+								firstLenTest = false
+							}
+						}
+						return false
+					}
+					loads := loadsOf(fld)
+					isNil := absent(loads)
+					if sib, ok := pairedWith[key]; ok && absent(loadsOf(sib)) {
+						isNil = true
+					}
+					if inner, ok := emptyWhenNil[key]; ok {
+						parts := strings.Split(inner, ".")
+						base := loads
+						fieldName := parts[0]
+						if len(parts) == 2 {
+							base = loadsOf(parts[0])
+							fieldName = parts[1]
+						}
+						for _, b := range p.All(px.KindIs(px.EvBranch)) {
+							cnd := b.Cond.Strip(true)
+							if cnd.Kind == px.KBinOp && px.IsNilConst(cnd.Y) && px.IsFieldLoad(cnd.X, fieldName, func(bb *px.Sym) bool {
+								for _, l := range base {
+									if bb.Strip(false) == l.Strip(false) {
 										return true
 									}
 								}
 								return false
-							})
-						}
-						if cnd.Kind == px.KBinOp && isLenOfField(cnd.X) {
-							if z, ok := constInt(p, cnd.Y); ok && z == 0 && ordHolds(cnd.Op, 0) == b.Taken && ordHolds(cnd.Op, 1) != b.Taken {
-								return true // len(list) == 0
+							}) && (cnd.Op.String() == "==") == b.Taken {
+								isNil = true
 							}
 						}
-						// range loop header `idx < len(list)` false on its first evaluation: empty list
-						if cnd.Kind == px.KBinOp && cnd.Op.String() == "<" && isLenOfField(cnd.Y) {
-							if firstLenTest && !b.Taken {
-								return true
-							}
-							firstLenTest = false
+					}
+					if isNil {
+						continue
+					}
+					ok := false
+					for _, lv := range loadValsOf(fld) {
+						if written(lv, true) {
+							ok = true
 						}
 					}
-					return false
-				}
-				loads := loadsOf(fld)
-				isNil := absent(loads)
-				if sib, ok := pairedWith[key]; ok && absent(loadsOf(sib)) {
-					isNil = true
-				}
-				if inner, ok := emptyWhenNil[key]; ok {
-					parts := strings.Split(inner, ".")
-					base := loads
-					fieldName := parts[0]
-					if len(parts) == 2 {
-						base = loadsOf(parts[0])
-						fieldName = parts[1]
+					if !ok {
+						if len(loads) == 0 {
+							return false, fmt.Sprintf("child %s%s is never read on a path that produces text: it cannot appear in the formatted output", where, fld)
+						}
+						return false, fmt.Sprintf("child %s%s is present on this path but does not reach the writer as a node (only inspected, handed to a call whose result is dropped, or printed from its bare/rendered text): the token — or the comments attached to it — is missing from the output", where, fld)
 					}
-					for _, b := range p.All(px.KindIs(px.EvBranch)) {
-						cnd := b.Cond.Strip(true)
-						if cnd.Kind == px.KBinOp && px.IsNilConst(cnd.Y) && px.IsFieldLoad(cnd.X, fieldName, func(bb *px.Sym) bool {
-							for _, l := range base {
-								if bb.Strip(false) == l.Strip(false) {
-									return true
+					// a list of struct nodes whose elements are rendered piecewise (the element itself never
+					// reaches the writer or its own Format): every child of each element must be covered in turn
+					if depth == 0 {
+					if est, ename, eflds := c20elemStruct(pk.Types, sname, fld); est != nil {
+							seenEl := map[*px.Sym]bool{}
+							for i := range p.Events {
+								e := &p.Events[i]
+								if e.Kind != px.EvLoad || e.Addr == nil || e.Addr.Kind != px.KIndexAddr || e.Addr.X == nil {
+									continue
+								}
+								fromList := false
+								for _, l := range loads {
+									if e.Addr.X.Strip(false) == l.Strip(false) {
+										fromList = true
+									}
+								}
+								ev, isV := e.Instr.(ssa.Value)
+								if !fromList || !isV || seenEl[e.Val] {
+									continue
+								}
+								seenEl[e.Val] = true
+								if written(ev, false) {
+									continue // written as a node
+								}
+								el := e.Val
+								if ok, msg := checkStruct(ename, eflds, func(b *px.Sym) bool { return b.Strip(false) == el.Strip(false) }, fld+"[i].", 1); !ok {
+									return false, msg
 								}
 							}
-							return false
-						}) && (cnd.Op.String() == "==") == b.Taken {
-							isNil = true
 						}
 					}
 				}
-				if isNil {
-					continue
-				}
-				ok := false
-				for _, l := range loads {
-					if handed[l.Strip(false)] {
-						ok = true
-					}
-					// ranged over: some KRange sym has X == l
-					for s := range handed {
-						// element of the slice handed to a call: s derives from l by range/index
-						x := s
-						viaField := false
-						for d := 0; d < 6 && x != nil; d++ {
-							if x == l.Strip(false) {
-								// through a field of the child only when what is handed is itself a node (e.g. Path.Value)
-								if !viaField || (s.Typ != nil && c20nodeish(s.Typ, pk.Types)) {
-									ok = true
-								}
-								break
-							}
-							switch x.Kind {
-							case px.KExtract, px.KNext, px.KRange, px.KLoad, px.KIndexAddr, px.KSlice, px.KTypeAssert, px.KMkIface, px.KChangeType:
-								x = x.X
-							case px.KFieldAddr:
-								viaField = true
-								x = x.X
-							default:
-								x = nil
-							}
-						}
-					}
-				}
-				_ = ranged
-				if !ok {
-					if len(loads) == 0 {
-						return false, fmt.Sprintf("child %s is never read on a path that produces text: it cannot appear in the formatted output", fld)
-					}
-					return false, fmt.Sprintf("child %s is present on this path but is not handed to the writer as a node (only inspected, or printed from its bare token text): the token — or the comments attached to it — is missing from the output", fld)
-				}
+				return true, ""
+			}
+			if ok, msg := checkStruct(name, children, func(b *px.Sym) bool { return isParam(b, recv) }, "", 0); !ok {
+				return false, msg
 			}
 			return true, ""
 		})
@@ -1022,4 +1015,186 @@ func c20index(c *Ctx) {
 		})
 	}
 	c.R.Min(rule, 1, "parse* methods applying a constant index to a slice")
+}
+
+// c20rendering: the called method puts its receiver into the output — a Format method, or a
+// method that is handed the writer.
+func c20rendering(ci *px.CallInfo) bool {
+	o := ci.Obj()
+	if o == nil {
+		return true // unresolved: do not guess (counts as written, as before)
+	}
+	if o.Name() == "Format" {
+		return true
+	}
+	sig, _ := o.Type().(*types.Signature)
+	if sig == nil {
+		return true
+	}
+	for i := 0; i < sig.Params().Len(); i++ {
+		if strings.Contains(sig.Params().At(i).Type().String(), "Writer") {
+			return true
+		}
+	}
+	return false
+}
+
+// c20flowsToSink follows v along SSA def-use edges (call argument → call result, phis, appends,
+// stores into local lists and objects, string concatenation, element/field selection of node type)
+// and reports whether it reaches the output on the path whose executed instructions are given: an
+// argument of a call on — or handed — the line-aware Writer, the receiver of a Format method or of a
+// method that takes the writer, or the returned text. Calls that were not executed on the path are
+// not crossed. viaField=false stops at field selections of v itself (used to ask "is the element
+// written as a node, or only piecewise").
+func c20flowsToSink(v ssa.Value, executed map[ssa.Instruction]bool, astPkg *types.Package, viaField bool) bool {
+	isWriterT := func(t types.Type) bool {
+		if p, ok := t.(*types.Pointer); ok {
+			t = p.Elem()
+		}
+		n, ok := t.(*types.Named)
+		return ok && n.Obj().Name() == "Writer" && n.Obj().Pkg() == astPkg
+	}
+	seen := map[ssa.Value]bool{}
+	var work []ssa.Value
+	push := func(x ssa.Value) {
+		if x != nil && !seen[x] {
+			seen[x] = true
+			work = append(work, x)
+		}
+	}
+	root := func(a ssa.Value) ssa.Value {
+		for {
+			switch x := a.(type) {
+			case *ssa.FieldAddr:
+				a = x.X
+			case *ssa.IndexAddr:
+				a = x.X
+			default:
+				return a
+			}
+		}
+	}
+	push(v)
+	for len(work) > 0 {
+		x := work[0]
+		work = work[1:]
+		refs := x.Referrers()
+		if refs == nil {
+			continue
+		}
+		for _, r := range *refs {
+			switch y := r.(type) {
+			case *ssa.Return:
+				return true
+			case ssa.CallInstruction:
+				if !executed[y] {
+					continue
+				}
+				cc := y.Common()
+				if b, ok := cc.Value.(*ssa.Builtin); ok {
+					if b.Name() == "append" {
+						if val := y.Value(); val != nil {
+							push(val)
+						}
+					}
+					continue
+				}
+				isRecv, mname := false, ""
+				sink := false
+				if cc.IsInvoke() {
+					isRecv, mname = cc.Value == x, cc.Method.Name()
+					sink = isWriterT(cc.Value.Type())
+				} else if sc := cc.StaticCallee(); sc != nil && sc.Signature.Recv() != nil && len(cc.Args) > 0 {
+					isRecv, mname = cc.Args[0] == x, sc.Name()
+				}
+				for _, a := range cc.Args {
+					if isWriterT(a.Type()) {
+						sink = true
+					}
+				}
+				if isRecv {
+					// inspections (RawText, CommentGroup, ContainsStruct, IsZeroString …) do not write the receiver
+					if mname == "Format" || (sink && !isWriterT(x.Type())) {
+						return true
+					}
+					continue
+				}
+				if sink {
+					return true
+				}
+				if val := y.Value(); val != nil {
+					push(val)
+				}
+			case *ssa.FieldAddr:
+				if y.X != x {
+					continue
+				}
+				if x == v && !viaField {
+					continue
+				}
+				if pt, ok := y.X.Type().Underlying().(*types.Pointer); ok {
+					if st, ok := pt.Elem().Underlying().(*types.Struct); ok && c20nodeish(st.Field(y.Field).Type(), astPkg) {
+						push(y)
+					}
+				}
+			case *ssa.Field:
+				if st, ok := y.X.Type().Underlying().(*types.Struct); ok && c20nodeish(st.Field(y.Field).Type(), astPkg) && (x != v || viaField) {
+					push(y)
+				}
+			case *ssa.Store:
+				if y.Val == x {
+					push(root(y.Addr))
+				}
+			case *ssa.Phi, *ssa.ChangeType, *ssa.ChangeInterface, *ssa.MakeInterface, *ssa.Convert, *ssa.Slice,
+				*ssa.TypeAssert, *ssa.Extract, *ssa.BinOp, *ssa.UnOp, *ssa.Index, *ssa.IndexAddr, *ssa.Lookup, *ssa.Range, *ssa.Next:
+				push(r.(ssa.Value))
+			}
+		}
+	}
+	return false
+}
+
+// c20elemStruct: field fld of ast struct sname is a list of pointers to an ast struct with
+// node-typed children of its own; returns that struct, its name and those children.
+func c20elemStruct(astPkg *types.Package, sname, fld string) (*types.Struct, string, []string) {
+	tn, _ := astPkg.Scope().Lookup(sname).(*types.TypeName)
+	if tn == nil {
+		return nil, "", nil
+	}
+	st, _ := tn.Type().Underlying().(*types.Struct)
+	if st == nil {
+		return nil, "", nil
+	}
+	for i := 0; i < st.NumFields(); i++ {
+		if st.Field(i).Name() != fld {
+			continue
+		}
+		sl, ok := st.Field(i).Type().Underlying().(*types.Slice)
+		if !ok {
+			return nil, "", nil
+		}
+		pt, ok := sl.Elem().(*types.Pointer)
+		if !ok {
+			return nil, "", nil
+		}
+		named, ok := pt.Elem().(*types.Named)
+		if !ok || named.Obj().Pkg() != astPkg || named.Obj().Name() == "TokenNode" {
+			return nil, "", nil
+		}
+		est, ok := named.Underlying().(*types.Struct)
+		if !ok {
+			return nil, "", nil
+		}
+		var flds []string
+		for j := 0; j < est.NumFields(); j++ {
+			if c20nodeish(est.Field(j).Type(), astPkg) {
+				flds = append(flds, est.Field(j).Name())
+			}
+		}
+		if len(flds) == 0 {
+			return nil, "", nil
+		}
+		return est, named.Obj().Name(), flds
+	}
+	return nil, "", nil
 }
